@@ -272,6 +272,7 @@ func runCase(c Case) (st stats, err error) {
 		r = &xport.SegReader{R: r, Sched: xport.Sched(c.SegKind, c.Seg)}
 	}
 	p := rtmp.NewProtocol(xport.RW{Reader: r, Writer: io.Discard})
+	var kept []*rtmp.Message
 	for i, w := range b.want {
 		m, e := p.ReadMessage()
 		if e != nil {
@@ -279,6 +280,12 @@ func runCase(c Case) (st stats, err error) {
 		}
 		if e := rtmpx.Same(m, w); e != nil {
 			return st, fmt.Errorf("message %d of %d: %v", i, len(b.want), e)
+		}
+		kept = append(kept, m)
+	}
+	for i, m := range kept {
+		if e := rtmpx.Same(m, b.want[i]); e != nil {
+			return st, fmt.Errorf("message %d of %d changed while later messages were read: %v", i, len(b.want), e)
 		}
 	}
 	m, e := p.ReadMessage()
